@@ -59,6 +59,12 @@ PidonLossTimesN(c, net, fids) ==
     SumS([q \in 1..(Len(fids) * Len(c.pts)) |->
             LET i == ((q - 1) \div Len(c.pts)) + 1  j == ((q - 1) % Len(c.pts)) + 1  r == PidonRes(c, net, fids, i, j)
             IN SumS([k \in DOMAIN r |-> r[k] * r[k]])])
+\* the per-row error (sum over components of res^2) as a flat list, for reductions other than the mean
+\* (DeepONetSingleModuleCondition with reduce_fn = sum / max)
+PidonErrs(c, net, fids) ==
+    [q \in 1..(Len(fids) * Len(c.pts)) |->
+        LET i == ((q - 1) \div Len(c.pts)) + 1  j == ((q - 1) % Len(c.pts)) + 1  r == PidonRes(c, net, fids, i, j)
+        IN SumS([k \in DOMAIN r |-> r[k] * r[k]])]
 \* dondata: |constrain(net) - target|, target[i][j] = c.tgt (constant), constrain: "none" or "u*t+1"
 DonOut(c, net, k, s) == IF c.res = "ut1" THEN net[c.mid][k][s + 1] * s + 1 ELSE net[c.mid][k][s + 1]
 DonDist(c, net) == [q \in 1..(Len(c.fids) * Len(c.pts)) |->
